@@ -1,5 +1,6 @@
 import AquaVerif.Proofs.InertRunNeutral
 import AquaVerif.Proofs.Inert
+import AquaVerif.Proofs.CropCalendar
 /-
 Property C20 — disabled features and neutral settings are inert.
 
@@ -287,5 +288,26 @@ theorem run_maxseason0_is_rainfed {F : Fn α} {T : TrigFn α} {cfg : RunCfg α}
     (hI : IrrInv s.day) :
     (runModel F T cfg.rainfed k s).map RunState.view = (runModel F T cfg k s).map RunState.view :=
   Aqua.run_maxSeason0_rainfed he hx k hI
+
+/-! ### stating the model's own latest harvest date explicitly
+
+Without a configured harvest date the package derives the crop calendar twice at initialisation
+(once to obtain the default harvest date, once when the variables are computed); with one, once.
+The calendar-day derivation returns the same calendar when it is applied again to the crop the first
+application left (its inputs are not among the fields it rewrites — after the repair of the
+flowering length recorded in `known_findings.txt`), so the number of derivations is immaterial. -/
+
+/-- the calendar-day crop calendar derived a second time from the crop as the first derivation left
+it is the same calendar -/
+theorem calendar_derived_twice_equals_once {F : Fn α} {c : CalCDIn α} {o : CalCDOut α}
+    (h : calendarInitCD F c = .ok o) :
+    calendarInitCD F { c with floweringCD := o.floweringCD } = .ok o :=
+  calendarInitCD_idempotent h
+
+/-- … in particular the flowering length, which the derivation reads for determinant crops, comes
+out as it went in -/
+theorem calendar_keeps_flowering_length {F : Fn α} {c : CalCDIn α} {o : CalCDOut α}
+    (h : calendarInitCD F c = .ok o) : o.floweringCD = c.floweringCD :=
+  calendarInitCD_floweringCD_kept h
 
 end Aqua.C20
